@@ -218,16 +218,20 @@ func suiteC19(r *Run) {
 	// several files in one request: one declares the messages (and a service), the other imports it and
 	// declares a service over those messages. The stubs do not depend on the order in which the files are
 	// named, and with import_path every file lands in that one Go package (sibling messages unqualified).
-	for iter := 0; iter < r.Budget(8, 60); iter++ {
+	for iter := 0; iter < r.Budget(16, 64); iter++ {
 		withImportPath := iter%2 == 0
 		withGoPkg := (iter/2)%2 == 1
 		legacy := (iter/4)%2 == 0
+		typesHasService := (iter/8)%2 == 0 // otherwise the imported file declares messages only (nothing to generate for it)
 		mk := func(n string) *descriptorpb.DescriptorProto { return &descriptorpb.DescriptorProto{Name: proto.String(n)} }
 		typesPb := &descriptorpb.FileDescriptorProto{
 			Name: proto.String(sprintf("api%d/types.proto", iter)), Package: proto.String("demo.api"), Syntax: proto.String("proto3"),
 			MessageType: []*descriptorpb.DescriptorProto{mk("Req"), mk("Resp")},
 			Service: []*descriptorpb.ServiceDescriptorProto{{Name: proto.String("Aux"), Method: []*descriptorpb.MethodDescriptorProto{
 				{Name: proto.String("Ping"), InputType: proto.String(".demo.api.Req"), OutputType: proto.String(".demo.api.Resp")}}}},
+		}
+		if !typesHasService {
+			typesPb.Service = nil
 		}
 		svcPb := &descriptorpb.FileDescriptorProto{
 			Name: proto.String(sprintf("api%d/svc.proto", iter)), Package: proto.String("demo.api"), Syntax: proto.String("proto3"),
@@ -264,7 +268,7 @@ func suiteC19(r *Run) {
 		}
 		a, ea := gen([]string{typesPb.GetName(), svcPb.GetName()})
 		b, eb := gen([]string{svcPb.GetName(), typesPb.GetName()})
-		caseDesc := map[string]interface{}{"op": "two-files-one-request", "params": strings.Join(params, ","), "go_package_option": withGoPkg, "files": "types.proto (messages, service Aux); svc.proto imports it (service Greeter)"}
+		caseDesc := map[string]interface{}{"op": "two-files-one-request", "params": strings.Join(params, ","), "go_package_option": withGoPkg, "imported_file_has_a_service": typesHasService, "files": "types.proto (messages, service Aux unless stated otherwise); svc.proto imports it (service Greeter)"}
 		r.Eval(fmt.Sprint("multi-file", iter), true)
 		r.Count("multi-file-requests")
 		if ea != "" || eb != "" {
@@ -287,6 +291,21 @@ func suiteC19(r *Run) {
 			if withImportPath && (!strings.HasPrefix(name, "example.com/gen/apipb/") || pkgClause != "apipb" || imports != "") {
 				r.Violate("stubgen/wrong-go-package", "the code the plugin emits is valid Go (every file of the request belongs to the Go package the options assign: import_path)",
 					sprintf("files named [svc, types], options %q: output %q has package clause %q and refers to a sibling package (%s); want a file under example.com/gen/apipb/ in package apipb with the sibling file's messages unqualified", strings.Join(params, ","), name, pkgClause, trunc(imports, 200)), caseDesc, name)
+			}
+		}
+		// every file that declares a service gets its stubs, whatever else is in the request
+		wantFiles := 1
+		if typesHasService {
+			wantFiles = 2
+		}
+		for oi, out := range []map[string]string{a, b} {
+			if len(out) != wantFiles {
+				var names []string
+				for n := range out {
+					names = append(names, n)
+				}
+				sort.Strings(names)
+				r.Violate("stubgen/no-output", "for every proto file … each service gets a registration function", sprintf("request order %v, options %q: %d output files %v for %d files with services", [][]string{{"types", "svc"}, {"svc", "types"}}[oi], strings.Join(params, ","), len(out), names, wantFiles), caseDesc, "")
 			}
 		}
 		same := len(a) == len(b)
